@@ -84,7 +84,7 @@ def run_tree(rec, tier, seed, ti, spec):
                 obj = vg.message(name)
                 mode = (j % 3 == 2)
                 res = one(rec, t, ti, name, obj, mode)
-                if res is not None and len(saved) < 400:
+                if res is not None and j < 8:  # every class takes part in the twin comparison
                     saved.append((obj, mode, res))
             if hasattr(decl, "family"):
                 C = br.real_class((name,))
